@@ -42,7 +42,7 @@ RULE = (
     "the box; after every call the result must match f (values), the coefficient (gradient of linear f) and - for any "
     "f - a reference table that only sees fresh copies, all evaluated at the content the caller gave the array. "
     "Non-trivial = d >= 2 or >= 3 distinct "
-    "points, f not constant; distinct = hash of spec."
+    "points, f not constant; distinct = hash of spec. Constructor arrays are also given as int64 / int32 (integer box corners with mostly fractional mesh size; npt int32; integer base point) whenever the dtype represents the numbers exactly."
 )
 BUDGET = {"quick": {"cases": 2400, "seconds": 40}, "thorough": {"cases": 80000, "seconds": 1100}}
 TECHNIQUE = "property-based testing (Hypothesis): analytic oracle (multilinear functions) and differential standard vs adaptive table"
